@@ -4,6 +4,11 @@ GRAMMAR_DEFAULT = {"max_rules": 5, "min_rules": 2, "modes": ["text", "text", "by
 
 CHECKS = {
     "C20": {
+        "further": [{
+        "sim": "socksim",
+        "quick": {"runs": 20000, "wall_s": 60, "runs_per_spec": 12, "run_wall_cap": 20, "proto": {}, "faults": True},
+        "thorough": {"runs": 1000000, "wall_s": 1200, "runs_per_spec": 20, "run_wall_cap": 30, "proto": {"max_types": 7}, "faults": True},
+    }],
         "sim": "protosim",
         "quick": {"runs": 20000, "wall_s": 80, "runs_per_spec": 12, "run_wall_cap": 20, "proto": {}, "faults": True},
         "thorough": {"runs": 1000000, "wall_s": 1500, "runs_per_spec": 20, "run_wall_cap": 30, "proto": {"max_types": 7, "max_states": 4}, "faults": True},
